@@ -480,6 +480,9 @@ impl Group for C15 {
         let mut v = vec![
             // forget, restart, id reuse attempts
             mk("init|new 2|new 3|forget 3|restart|new 3|new 2|new 1|new 4|heartbeat"),
+            // holder commitment with an HTLC: our main output swept, the HTLC output never; forgotten; aged far beyond MIN_DEPTH and
+            // beyond the depth a closed channel is watched for: must survive every heartbeat
+            mk("init|new 1|setup 1|add 11|add 14|add 15|forget 1|addn 2020|heartbeat|addn 10|heartbeat|restart|heartbeat"),
             // capacity 2: third id refused, the existing id refused as well (guard before lookup), room after forgetting a stub,
             // the forgotten id stays refused; restart in between
             mk("init m2|new 1|new 2|new 3|new 1|forget 2|restart|new 3|new 2|new 4|heartbeat"),
@@ -583,8 +586,11 @@ impl Group for C15 {
             let mut first = vec![if cp_close { ucid(d) } else if cp_htlc { c_u } else { uid(d) }];
             if rng.chance(1, 3) { first.push(order.remove(0)); }
             push(&mut w, &mut ops, addl(&first));
-            if cp_close && rng.chance(1, 3) { order.clear(); } // our output stays unswept: must never be pruned
-            if cp_htlc && rng.chance(1, 3) { order.retain(|x| *x == c_s); } // only the main output is swept, the HTLC is not: must never be pruned
+            let mut partial = false; // some output of ours stays unswept for good
+            if cp_close && rng.chance(1, 3) { order.clear(); partial = true; } // our output stays unswept: must never be pruned
+            if cp_htlc && rng.chance(1, 3) { order.retain(|x| *x == c_s); partial = true; } // only the main output is swept, the HTLC is not: must never be pruned
+            // holder commitment: only our main output is swept, the HTLC output (and hence its second-level output) never is
+            if !cp_close && !cp_htlc && rng.chance(1, 4) { order.retain(|x| *x == sid(d)); partial = true; }
             let mut sweep_blocks = 0u64;
             while !order.is_empty() {
                 if rng.chance(1, 4) { push(&mut w, &mut ops, "add".into()); sweep_blocks += 1; }
@@ -614,6 +620,21 @@ impl Group for C15 {
             }
             if !forget_early && rng.chance(5, 6) { push(&mut w, &mut ops, format!("forget {}", d)); }
             if rng.chance(1, 3) { push(&mut w, &mut ops, "restart".into()); }
+            // long burial: a close that is only partially swept (or fully swept) ages far beyond MIN_DEPTH - weeks of blocks,
+            // around and beyond the 2016 blocks a closed channel's HTLC sweeps are watched for; a partially swept close
+            // must survive every heartbeat however old it gets
+            if (partial && rng.chance(1, 3)) || (!partial && rng.chance(1, 30)) {
+                let k = *rng.pick(&[300u64, 2014, 2015, 2016, 2017, 2300]);
+                push(&mut w, &mut ops, format!("addn {}", k));
+                for _ in 0..2 {
+                    push(&mut w, &mut ops, "heartbeat".into());
+                    push(&mut w, &mut ops, "addn 1".into());
+                }
+                push(&mut w, &mut ops, "heartbeat".into());
+                if rng.chance(1, 3) { push(&mut w, &mut ops, "restart".into()); push(&mut w, &mut ops, "heartbeat".into()); }
+                push(&mut w, &mut ops, format!("new {}", d));
+                return ops;
+            }
             // the tip block counts as depth 1
             let k = *rng.pick(&[97u64, 98, 98]);
             push(&mut w, &mut ops, format!("addn {}", k));
